@@ -16,6 +16,8 @@ use bytes::{BufMut, BytesMut};
 use futures::FutureExt;
 use qbase::{
     cid::ConnectionId,
+    frame::AckFrame,
+    varint::VarInt,
     packet::{
         AssemblePacket, DataHeader, GetDcid, GetScid, KeyPhaseBit, LongHeaderBuilder, OneRttHeader, Packet, PacketNumber,
         PacketReader, PacketWriter, SpinBit,
@@ -31,7 +33,29 @@ use serde_json::{Value, json};
 use util::{Out, Rng, guarded, quiet_panics, read_lines};
 
 const PTO: Duration = Duration::from_millis(100);
-const POS: u64 = 999; // matrix: the data/initial/handshake journals are put at this packet number first
+/// RcvdJournal::MAX_PN_GAP (fix e72bd15): decode_pn refuses a number more than this far ahead of the next expected one
+const STEP: u64 = 1 << 16;
+
+/// Put a RcvdJournal into the state "every packet up to `target` was received, acknowledged, and the acknowledgement
+/// confirmed by the peer" using its public API only.  Done in steps of 2^16 numbers because the journal keeps one record
+/// per number between the oldest tracked and the largest received one (a direct jump to 8.4 M would allocate 700 MB):
+/// on_rcvd_pn (not ack-eliciting) -> gen_ack_frame_util (our packet `ack_pn` carries the ACK) -> on_rcvd_ack (the peer
+/// acknowledges `ack_pn`) -> the records are confirmed and rotate out.  Afterwards the next expected number is target + 1.
+fn advance(j: &ArcRcvdJournal, target: u64) {
+    let (mut at, mut ack_pn) = (0u64, 0u64);
+    loop {
+        let next = (at + STEP).min(target);
+        j.on_rcvd_pn(next, false, PTO);
+        j.gen_ack_frame_util(ack_pn, next, tokio::time::Instant::now(), 64).expect("gen_ack_frame_util");
+        let v = |x: u64| VarInt::from_u64(x).unwrap();
+        j.on_rcvd_ack(&AckFrame::new(v(ack_pn), v(0), v(0), vec![], None));
+        ack_pn += 1;
+        at = next;
+        if at >= target {
+            break;
+        }
+    }
+}
 
 // ------------------------------------------------------------------------------------------------------------------
 // endpoints: the key containers exactly as the spaces hold them
@@ -475,6 +499,7 @@ fn run_case(case: &Value, idx: usize, ctx: &tls::TlsCtx, other: &(Endpoint, Endp
     let token = body_bytes(&mut rng, tok);
     let ini_tx = ArcKeys::with_keys(ctx.initial_keys(&dcid, rustls::Side::Client).into());
     let ini_rx = ArcKeys::with_keys(ctx.initial_keys(&dcid, rustls::Side::Server).into());
+    let rx_far = Receiver::new(&rxe, ini_rx.clone());
     let rx = Receiver::new(&rxe, ini_rx);
     let mut other_dcid = dcid.to_vec();
     other_dcid.push(0x5a);
@@ -492,14 +517,29 @@ fn run_case(case: &Value, idx: usize, ctx: &tls::TlsCtx, other: &(Endpoint, Endp
         _ => "onertt",
     };
     let pnspace = if sp == "zerortt" || sp == "onertt" { "data" } else { sp };
-    for r in [&rx, &rx_other] {
-        r.journal(sp).on_rcvd_pn(POS, true, PTO);
-    }
-    events.push(json!({"ev": "position", "s": pnspace, "n": POS}));
+    // The packet of this case.  pn_len is forced by the SENDER's largest acknowledged number (PacketNumber::encode); the
+    // receiver is up to date within the journal's window: it has received everything up to pn - 1 - lag.
+    let (pn, acked): (u64, u64) = match plen {
+        1 => (1003, 990),
+        2 => (40_003, 39_990),
+        3 => (140_003, 100_003),
+        _ => (8_455_147, 66_447),
+    };
+    let lag: u64 = match (idx % 3, plen) {
+        (0, _) => 0,
+        (1, _) => 6,
+        (_, 1) => 100,
+        (_, 2) => 30_000,
+        _ => STEP - 1,
+    };
+    let npre = if sp == "onertt" { gen_ } else { 0 };
+    let p0 = pn - 1 - lag - npre;
+    advance(rx.journal(sp), p0);
+    events.push(json!({"ev": "position", "s": pnspace, "n": p0}));
 
     // 1-RTT after `gen` key updates: the sender updates, one genuine packet takes the receiver along, the receiver
     // drops the previous read key (phase_out, as the API documents)
-    let mut next_pn = POS + 1;
+    let mut next_pn = p0 + 1;
     if sp == "onertt" {
         for g in 1..=gen_ {
             tx.one.get_local_keys().unwrap().1.lock_guard().update();
@@ -516,14 +556,6 @@ fn run_case(case: &Value, idx: usize, ctx: &tls::TlsCtx, other: &(Endpoint, Endp
             events.push(json!({"ev": "phaseout"}));
         }
     }
-
-    // the packet of this case
-    let base = POS + 4; // 1003
-    let (pn, acked) = match plen {
-        1 | 2 => (base, base - 13),
-        3 => (base + 40000, 0),
-        _ => (base + 8_388_608, 0),
-    };
     let full = pay == "full";
     let body_len = match pay {
         "min" => std::cmp::max(1, 4usize.saturating_sub(plen)),
@@ -615,6 +647,19 @@ fn run_case(case: &Value, idx: usize, ctx: &tls::TlsCtx, other: &(Endpoint, Endp
             }
         }
         note_panics(&t, k, panics);
+    }
+
+    // A receiver that is MORE than 2^16 packets behind: the number reconstructs, but since e72bd15 the journal refuses the
+    // jump (InvalidPacketNumber::TooLarge).  The judge leaves this case open ("either"); it is recorded as its own run.
+    if sp != "onertt" && plen >= 3 && idx % 4 == 0 {
+        let far = pn - 1 - 70_000;
+        advance(rx_far.journal(sp), far);
+        events.push(json!({"ev": "reset", "case": case, "idx": idx, "far": true}));
+        events.push(json!({"ev": "position", "s": pnspace, "n": far}));
+        let mut t = Tally::default();
+        present(&mut t, &a, &a.dgram, &rx_far, -1);
+        events.push(rx_event(&a, gen_, "none", "same", &t, false, &rx_far));
+        note_panics(&t, "farbehind", panics);
     }
 }
 
